@@ -28,7 +28,9 @@ COQ = VERIF / "coq"
 THEORIES = COQ / "theories"
 BUILD = VERIF / "_build"
 WORK_ROOT = VERIF / "_work"
-EVIDENCE = VERIF / "evidence"
+# evidence/ only ever describes runs against /repo itself; development runs against a scratch
+# copy (NPTDMS_REPO=...) write elsewhere
+EVIDENCE = VERIF / "evidence" if str(REPO) == "/repo" else VERIF / "_work" / "evidence_dev"
 REPLAYS = VERIF / "replays"
 KNOWN = VERIF / "KNOWN_FINDINGS.txt"
 PYTHON = "/venv/bin/python"
@@ -548,7 +550,7 @@ class Run:
         sys.exit(1 if lines else 0)
 
     def write_evidence(self, nviol, known_hit):
-        EVIDENCE.mkdir(exist_ok=True)
+        EVIDENCE.mkdir(parents=True, exist_ok=True)
         cov = dict(self.cov)
         if not cov["samples"]:
             cov["samples"] = ["(no cases generated)"]
